@@ -1138,6 +1138,15 @@ def _r16_19(prog: Program, res: Result) -> None:
     if not sites:
         res.undecided("R16.19", fn.loc(), fn.fq, "admission of a definition's name", "site `<whitelist>.add(<def>.name)` not found")
         return
+    # the census counts imports too: `try: from lib import notify / except ImportError: def notify(..): pass` binds the name twice
+    for k in sorted(counters):
+        upd = [c for c in prog.calls_in(fn) if isinstance(c.func, ast.Attribute) and c.func.attr == "update" and isinstance(c.func.value, ast.Name) and c.func.value.id == k]
+        texts = " ".join(norm(c) for c in upd) + " " + " ".join(norm(v) for _s, v in bindings(fn).get(k, []) if v is not None)
+        with_imports = "ast.alias" in texts and ".asname" in texts
+        res.decide(with_imports, "R16.19", fn.loc(), fn.fq, f"{k} # census of the definitions of a name",
+                   "counts def, class and import bindings" if with_imports else
+                   "counts def and class statements only: a name that an import binds as well (optional-dependency fallback `except ImportError: def notify(..): pass`) has "
+                   "`one definition`, the harmless fallback is judged, and every call of the real, imported function is deleted as pointless")
     pa = PathAnalysis(prog, fn)
     for c in sites:
         subject = norm(c.args[0])
@@ -1155,6 +1164,12 @@ def _r16_19(prog: Program, res: Result) -> None:
                     return True
             return False
         ok = bool(counters) and bool(worlds) and all(any(single(f) for f in w.facts) for w in worlds)
+        # a decorated definition is bound to whatever the decorator returns: not admitted, def or class (R16.15 for functions)
+        undecorated = bool(worlds) and all(any(f[0] == "lit" and not f[2] and plain(f[1]).endswith(".decorator_list") for f in w.facts) for w in worlds)
+        res.decide(undecorated, "R16.19", fn.loc(c), fn.fq, f"{short(c, 50)} # a decorated definition's name is not admitted",
+                   "reached only for a definition without decorators" if undecorated else
+                   "the name of a DECORATED definition becomes a safe callable: it is bound to what the decorator returns (a registering decorator, a class decorator that "
+                   "instantiates), calling it is not calling the body that was judged")
         res.decide(ok, "R16.19", fn.loc(c), fn.fq, f"{short(c, 50)} # a definition's name becomes a safe callable",
                    f"only for a name with exactly one definition in the module (census {sorted(counters)})" if ok else
                    "the name of a pure definition becomes a safe callable although the module may define the name again (other branch of an if, nested def, method): "
@@ -1479,6 +1494,8 @@ def _positive(test: ast.AST) -> bool:
 from ..selftest import Variant  # noqa: E402
 
 VARIANTS: List[Variant] = [
+    Variant("census-of-definitions-without-imports", "FIRE", "parsing", "    definition_count.update(\n        (alias.asname or alias.name).split(\".\")[0] for alias in core.walk(root, ast.alias)\n    )\n", "", "R16.19"),
+    Variant("decorated-classes-admitted-as-safe-callables", "FIRE", "parsing", "            continue  # Which of the definitions a call means is not known\n        if node.decorator_list:\n            continue  # The name is bound to whatever the decorator returns\n", "            continue  # Which of the definitions a call means is not known\n", "R16.19"),
     Variant("elif-branch-hoisted-to-the-level-of-its-if", "FIRE", "fixes", "            if source[node_start:node_end].startswith(\"elif\"):\n                continue  # Its branches are part of the else branch of the if above, not statements next to it\n\n", "", "R16.24"),
     Variant("arguments-judged-with-the-widened-whitelist", "FIRE", "core", "            or any(has_side_effect(item, safe_callable_whitelist) for item in node.args)\n", "            or any(has_side_effect(item, callee_whitelist) for item in node.args)\n", "R16.22"),
     Variant("with-blocks-only-without-raise-or-assert-inside", "REPAIRED", "core", '    if isinstance(node, ast.With):\n        return any(is_blocking(child, parent_type) for child in node.body)\n',
